@@ -96,7 +96,9 @@ PROP = {
             "struct literal with NIL Metadata, each also behind a shallow copy and behind the forwarder envelope (decoded message: \"metadata\": null stays nil) "
             "- followed by a write to the copy and a write to the original in both orders, read back through Get/Equals, and a copy of the copy "
             "(monitor rule copy_owns_metadata_nil_original: a write through a copy never panics) plus seeded random programs (<= 30 ops, <= 6 objects) over "
-            "NewMessage/&Message{}/Copy/shallow copy/envelope round trip/Set/Get/Equals/field writes, with nil-metadata originals copied and written; after every op all objects are dumped. env/fpub/unenv: wrap -> generic "
+            "NewMessage/&Message{}/Copy/shallow copy/envelope round trip/Set/Get/Equals/field writes/payload cut to a shorter view of the same buffer (t:I:N), "
+            "with nil-metadata originals copied and written; two views of one payload buffer with the same start (Copy and shallow copy share the payload slice; "
+            "either side cut to every length 0..len) compared both ways - exhaustively for a 4-byte payload and in the random programs; after every op all objects are dumped. env/fpub/unenv: wrap -> generic "
             "JSON view of the envelope -> unwrap for random messages x destination topics, forwarder.Publisher on a capturing publisher, 21 malformed "
             "envelopes; jenv: the JSON text of the envelope from the Lean model of encoding/json against the real encoder byte for byte (every ASCII "
             "character, U+2028/9, 2-4 byte runes, all payload lengths mod 3, all byte values); jdec: the Lean decoder against json.Unmarshal on those texts. "
@@ -105,7 +107,11 @@ PROP = {
             "set through protoreflect SetUnknown / XXX_unrecognized), and the value is compared by its exported fields, its unknown bytes and its "
             "deterministic re-marshalling - 300 protobuf values per quick run whose Go OBJECT HAS A PAST (proto.Size / a first Marshal through the same marshaler / proto.Marshal was "
             "called on it, then 1-3 nested messages were edited in place so that their encoded length grows or shrinks) - the edited value is a value "
-            "like any other and must marshal and round-trip - non-serialisable values; replies over 11 result types x {no error, empty text, any text}; 33 hand-made replies. "
+            "like any other and must marshal and round-trip - non-serialisable values; 7 name configurations per marshaler incl. closures of ONE function literal (NamedStruct with two fallbacks, "
+            "two prefixes, built by non-inlined constructors) and a value-dependent Name(); the reference name is the configured generator applied to the "
+            "value (not marshaler.Name); 900 cases per quick run come AFTER an earlier Marshal in the same process (~seed_variant suffix: another value of "
+            "the type, another configuration sharing the function literal, the same value under another configuration) and run first, so a failing one "
+            "replays on its own; replies over 11 result types x {no error, empty text, any text}; 33 hand-made replies. "
             "Non-trivial = metadata present (pair) / a copy followed by a write or an Equals (heap) / non-empty destination (env) / serialisable value "
             "(cqrs, reply). Thorough = 12x the random volume.",
     "trusted_base": [
